@@ -62,9 +62,16 @@ def do_replay(path):
 def default_replay(rp, work, c):
     """regenerate the traces from the real code with the recorded seed/tier, pick the recorded trace id,
     validate it alone; fall back to the recorded events when the id is no longer produced"""
+    from vlib.checks import run_generators
     pid = rp["property"]
     drv = rp["driver"]
-    s = R.run_driver(drv, os.path.join(work, "drv"), rp["tier"], rp["seed"], shards=1)
+    dargs = []
+    for d in c.get("drivers", []):
+        if d["module"] == drv and d["trace"] == rp["trace_module"]:
+            dargs = list(d.get("args", []))
+    os.environ["VERIF_TMP"] = work
+    dargs += run_generators(c, rp["tier"], work)
+    s = R.run_driver(drv, os.path.join(work, "drv"), rp["tier"], rp["seed"], shards=1, extra=dargs)
     tr, shared = None, {}
     for b in s["batches"]:
         t, bb = R.find_trace(b, rp["trace_id"])
